@@ -19,7 +19,8 @@ OUTCOMES = [("return", "None"), ("return", "0"), ("return", "''"), ("return", "[
             ("raise", "StopAsyncIteration"), ("raise", "TimeoutError"), ("raise", "UserTimeout"),
             ("raise", "KeyError"), ("raise", "RuntimeError"), ("raise", "TypeError"),
             ("raise", "AttributeError"), ("raise", "cf.CancelledError"),
-            ("raise", "cf.InvalidStateError"), ("raise", "asyncio.InvalidStateError")]
+            ("raise", "cf.InvalidStateError"), ("raise", "asyncio.InvalidStateError"),
+            ("raise", "FalsyError"), ("raise", "UnprintableError")]
 ARGS = [((), {}), ((1,), {"k": 2}), ((1, "a"), {}), ((), {"k": 2, "m": None})]
 
 
